@@ -48,6 +48,18 @@ func verifC09Check(t vlib.TB, b []byte, kind string, valid bool) {
 		vlib.Report(t, "C09/completeness/ed25519.FromBytes/rejects-library-encoding", fmt.Sprintf("input=%x", b))
 		return
 	}
+	if ref.OK {
+		vlib.Class(sub, "ref sqrt branch="+ref.Branch+":"+acc)
+	}
+	if (kind == "structured-valid" || kind == "ref-point" || kind == "low-order") && ref.OK {
+		// built by the reference as the canonical encoding of a curve point: a value the library can hold and
+		// serialise, so it must be accepted
+		vlib.Class(sub, "reference-constructed valid encoding ("+kind+")")
+		if !accepted {
+			vlib.Report(t, "C09/completeness/ed25519.FromBytes/rejects-valid-encoding", fmt.Sprintf("kind=%s input=%x is the canonical encoding of a curve point (sqrt branch %s) but is rejected", kind, b, ref.Branch))
+			return
+		}
+	}
 	if !accepted {
 		return
 	}
@@ -83,7 +95,7 @@ func TestVerifC09Ed25519Decode(t *testing.T) {
 		}
 	}
 	vlib.Exhaustive("C09 ed25519: all encodings with y in [p, 2^255), both sign bits", n, "white-box pointR1.FromBytes")
-	kinds := []string{"valid", "bitflip", "bitflip", "x-zero-sign", "low-order", "ref-point", "small-y", "random", "random"}
+	kinds := []string{"valid", "bitflip", "bitflip", "x-zero-sign", "low-order", "ref-point", "structured-valid", "structured-valid", "small-y", "random", "random"}
 	vlib.Check(t, vlib.N(1500, 20000), func(t *rapid.T) {
 		kind := rapid.SampledFrom(kinds).Draw(t, "kind")
 		lib := func() []byte {
@@ -132,6 +144,28 @@ func TestVerifC09Ed25519Decode(t *testing.T) {
 					break
 				}
 			}
+		case "structured-valid":
+			// curve points with structure, built by the reference: structured y with either sign bit, or structured x
+			// lifted through the curve equation (either root y); both branches of the p ≡ 5 (mod 8) square root occur
+			for i := 0; ; i++ {
+				if rapid.Bool().Draw(t, fmt.Sprintf("fromx%d", i)) {
+					if P, ok := decode.Ed25519LiftX(verifC09Structured(t, fmt.Sprintf("x%d", i))); ok {
+						if rapid.Bool().Draw(t, "negy") {
+							P.Y = new(big.Int).Mod(new(big.Int).Neg(P.Y), p)
+						}
+						b = decode.Ed25519Encode(P)
+						break
+					}
+					continue
+				}
+				b = vlib.LE(verifC09Structured(t, fmt.Sprintf("y%d", i)), 32)
+				if rapid.Bool().Draw(t, fmt.Sprintf("sign%d", i)) {
+					b[31] |= 0x80
+				}
+				if decode.Ed25519Decode(b).OK || i > 100 {
+					break
+				}
+			}
 		case "small-y":
 			b = vlib.LE(big.NewInt(int64(rapid.IntRange(0, 40).Draw(t, "y"))), 32)
 			if rapid.Bool().Draw(t, "sign") {
@@ -150,4 +184,35 @@ func verifC09DrawBelowP(t *rapid.T, label string) *big.Int {
 	vlib.FillRandom(t, b, label)
 	v := new(big.Int).SetBytes(b)
 	return v.Mod(v, decode.P25519)
+}
+
+// verifC09Structured draws a field value with structure: 0, ±1, ±small, 2^k, 2^k−1, (p±1)/2, ±squares.
+func verifC09Structured(t *rapid.T, label string) *big.Int {
+	p := decode.P25519
+	var v *big.Int
+	switch rapid.IntRange(0, 6).Draw(t, label+".sk") {
+	case 0:
+		v = big.NewInt(int64(rapid.IntRange(0, 3).Draw(t, label+".v")))
+	case 1:
+		v = big.NewInt(int64(rapid.IntRange(0, 200).Draw(t, label+".v")))
+	case 2:
+		v = new(big.Int).Sub(p, big.NewInt(int64(rapid.IntRange(1, 200).Draw(t, label+".v"))))
+	case 3:
+		v = new(big.Int).Lsh(big.NewInt(1), uint(rapid.IntRange(1, 254).Draw(t, label+".e")))
+	case 4:
+		v = new(big.Int).Lsh(big.NewInt(1), uint(rapid.IntRange(1, 254).Draw(t, label+".e")))
+		v.Sub(v, big.NewInt(1))
+	case 5:
+		v = new(big.Int).Rsh(p, 1)
+		if rapid.Bool().Draw(t, label+".up") {
+			v.Add(v, big.NewInt(1))
+		}
+	default:
+		r := int64(rapid.IntRange(2, 60).Draw(t, label+".r"))
+		v = big.NewInt(r * r)
+		if rapid.Bool().Draw(t, label+".neg") {
+			v.Sub(p, v)
+		}
+	}
+	return v.Mod(v, p)
 }
